@@ -45,6 +45,19 @@ INS_END = 0xFF
 SW_OK = 0x9000
 ERR_INVALID_DATA_SIZE = 0x6A87
 ERR_INVALID_PATH = 0x6A8F
+
+
+def _binpath(*comps):
+    import struct as _struct
+    return bytes([5]) + b"".join(_struct.pack("<I", c) for c in comps)
+
+
+_H = 0x80000000
+# pathAuth.c: the paths whose signatures need an authorised (tx + receipt) request, and the ones that
+# sign any hash; nothing else is a key of this wallet
+AUTH_PATHS = {_binpath(44 + _H, 0 + _H, 0 + _H, 0, 0), _binpath(44 + _H, 1 + _H, 0 + _H, 0, 0)}
+NOAUTH_PATHS = {_binpath(44 + _H, 137 + _H, 0 + _H, 0, 0), _binpath(44 + _H, 137 + _H, 1 + _H, 0, 0),
+                _binpath(44 + _H, 1 + _H, 1 + _H, 0, 0), _binpath(44 + _H, 1 + _H, 2 + _H, 0, 0)}
 ERR_INS_NOT_SUPPORTED = 0x6D00
 ERR_UI_PROT_INVALID = 0x6A01
 ERR_UI_INVALID_PIN = 0x69A0
@@ -414,6 +427,8 @@ class LedgerDevice:
             path = bytes(apdu[2:])
             if self.cfg.get("unknown_paths") and path in self.cfg["unknown_paths"]:
                 raise _SW(ERR_INVALID_PATH)
+            if not self.cfg.get("any_path") and path not in AUTH_PATHS and path not in NOAUTH_PATHS:
+                raise _SW(ERR_INVALID_PATH)      # hsm.c: neither pathRequireAuth nor pathDontRequireAuth
             return (self.pubkey_for(path), SW_OK)
         if ins == INS_SIGN:
             return self._sign(apdu)
@@ -505,6 +520,16 @@ class LedgerDevice:
         data = bytes(apdu[3:])
         ex = self.expect if self.expect and self.expect.get("kind") == "sign" else None
         if op == 0x01:
+            if not self.cfg.get("any_path") and len(data) >= 21:
+                # auth_path.c: the path decides which of the two message formats is due
+                if data[:21] in AUTH_PATHS:
+                    if len(data) != 21 + 4:
+                        raise _SW(0x6A90)        # ERR_AUTH_INVALID_DATA_SIZE_AUTH_SIGN
+                elif data[:21] in NOAUTH_PATHS:
+                    if len(data) != 21 + 32:
+                        raise _SW(0x6A91)        # ERR_AUTH_INVALID_DATA_SIZE_UNAUTH_SIGN
+                else:
+                    raise _SW(ERR_INVALID_PATH)  # ERR_AUTH_INVALID_PATH
             if len(data) == 21 + 4:
                 authorized = True
             elif len(data) == 21 + 32:
